@@ -205,6 +205,11 @@ def evaluate(ir, ks):
 
 
 def check_case(case):
+    if case.get("before") is not None:
+        # a sequence point: the conversion under test right after another one (that usually raises) in the same process
+        run_poison(case["before"])
+        ok, what, _, strict_ok = evaluate(_from_case(case["ir"]), case["chain"])
+        return (ok and strict_ok), what or ("" if strict_ok else "preserved only up to a documented loss inside the region")
     ok, what, _, _ = evaluate(_from_case(case["ir"]), case["chain"])
     return ok, what
 
@@ -404,6 +409,132 @@ def gen_points(rng, tier):
     return pts
 
 
+# ------------------------------------------------------------------ sequences: one process, several conversions
+DOC_CHAINS = [list(c) for n in (1, 2, 3) for c in itertools.permutations(DOC_KINDS, n)]
+DAMAGES = ["drop-paren", "drop-paren", "drop-paren", "truncate", "junk-line", "junk-line", "drop-colon", "dedent", "tab-indent"]
+
+
+def damage_docstring(rng, text):
+    """one slip of the kind a hand-edited docstring has: a closing parenthesis or a colon lost, the text cut short, a stray
+    line, a line that lost its indent"""
+    kind = rng.choice(DAMAGES)
+    if kind in ("drop-paren", "drop-colon"):
+        c = ")" if kind == "drop-paren" else ":"
+        idx = [j for j, x in enumerate(text) if x == c]
+        if idx:
+            j = rng.choice(idx)
+            return kind, text[:j] + text[j + 1:]
+        kind = "truncate"
+    if kind == "truncate":
+        return kind, text[:rng.randrange(len(text) // 2, len(text) + 1)]
+    ls = text.split("\n")
+    j = rng.randrange(len(ls))
+    if kind == "junk-line":
+        ls.insert(j, rng.choice(["  (", "x : ", "    -----", "  y (int", ":", "  z (str: text", "Returns", "-------"]))
+    elif kind == "dedent":
+        ls[j] = ls[j].lstrip()
+    else:
+        ls[j] = "\t" + ls[j].lstrip()
+    return kind, "\n".join(ls)
+
+
+def gen_poison(rng):
+    """what a batch job may convert right before the conversion under test - JSON-able:
+       {"kind": "text", ...}   a docstring (emitted for a generated description, then damaged once) handed to parse.docstring;
+       {"kind": "chain", ...}  a conversion chain on a description drawn near / outside the region (return entries with code
+                               defaults, non-finite floats, defaults of another type ...: many raise part-way)"""
+    for _ in range(20):
+        if rng.random() < 0.55:
+            k = rng.choice(["google", "google", "numpydoc", "numpydoc", "rest"])
+            ir = region_ir(rng, [k])[0] if rng.random() < 0.5 else near_ir(rng)[0]
+            if rng.random() < 0.5:
+                # (entries with a default first: the damage then sits behind an entry whose default was read)
+                items = sorted(ir["params"].items(), key=lambda kv: "default" not in kv[1])
+                ir["params"] = OrderedDict(items)
+            try:
+                text = emit_text(k, ir)
+            except Exception:  # noqa
+                continue
+            dk, text = damage_docstring(rng, text)
+            return {"kind": "text", "format": k, "damage": dk, "text": text}
+        ir = (near_ir(rng)[0] if rng.random() < 0.7 else gen_ir.gen_ir(rng)[0])
+        if not ir["params"]:
+            continue
+        if rng.random() < 0.4:
+            # an interface of the supported domain whose return entry carries a type and a code default
+            ir["returns"] = OrderedDict((("return_type", {"typ": rng.choice(["int", "str", "float"]), "doc": G.clean_prose(rng),
+                                                        "default": rng.choice(["```count```", "```x```", "```5```", "```a + b```"])}),))
+        ks = rng.choice(SINGLES + PAIRS)
+        try:
+            j = _jsonable(ir)
+            json.dumps(j)
+        except Exception:  # noqa
+            continue
+        return {"kind": "chain", "ir": j, "chain": ks}
+    return {"kind": "text", "format": "google", "damage": "fixed", "text": "\nS.\n\nArgs:\n  a (int): x. Defaults to 2\n  b (int: y\n"}
+
+
+def run_poison(spec):
+    """-> 'raised:<kind>' | 'completed'"""
+    try:
+        if spec["kind"] == "text":
+            impl().parse.docstring(spec["text"], emit_default_doc=False)
+        else:
+            cur = _from_case(spec["ir"])
+            for k in spec["chain"]:
+                cur = convert(k, cur)
+    except Exception as e:  # noqa
+        return "raised:" + type(e).__name__
+    return "completed"
+
+
+def _screen(chunk):
+    return [run_poison(p) for p in chunk]
+
+
+def gen_sequences(rng, n, nproc=1):
+    """[(poison, ir, chain, tags)]: the conversion under test is a chain on a description built inside the region of that chain;
+    half of the chains run over the docstring kinds only (there a parameter without default is inside the region).  For four
+    units in five, of three candidates for the other conversion the first that raises is taken (tried out in throw-away
+    processes, never in this one); for the rest the first candidate whatever it does (mostly conversions that complete)"""
+    cands = [[gen_poison(rng) for _ in range(3)] for _ in range(n)]
+    flat = [p for c in cands for p in c]
+    size = max(1, len(flat) // (nproc * 4))
+    chunks = [flat[i:i + size] for i in range(0, len(flat), size)]
+    if nproc > 1:
+        with Pool(nproc) as pool:
+            did = [d for ch in pool.map(_screen, chunks) for d in ch]
+    else:
+        did = ["completed"] * len(flat)
+    out = []
+    for j in range(n):
+        ks = rng.choice(DOC_CHAINS) if rng.random() < 0.5 else rng.choice(SINGLES + PAIRS + TRIPLES)
+        ir, tags = region_ir(rng, ks)
+        pick = cands[j][0]
+        if rng.random() < 0.8:
+            pick = next((p for p, d in zip(cands[j], did[3 * j:3 * j + 3]) if d != "completed"), pick)
+        out.append((pick, ir, ks, tags + ["sequence"]))
+    return out
+
+
+def _final(out):
+    return json.dumps(_jsonable(out), sort_keys=True, default=str) if out is not None else None
+
+
+def _work_seq(chunk):
+    """per unit: the chain alone, then the other conversion, then the chain again (same process)
+    -> (what the other conversion did, final IR alone, final IR afterwards, evaluate(...) afterwards)"""
+    res = []
+    for poison, ir, ks in chunk:
+        alone, what_alone, _ = run_chain(ir, ks)
+        alone = _final(alone) if alone is not None else "raised: " + what_alone
+        did = run_poison(poison)
+        ok, what, mids, strict_ok = evaluate(ir, ks)
+        after = json.dumps(mids[-1], sort_keys=True, default=str) if len(mids) == len(ks) else "raised: " + what
+        res.append((did, alone, after, ok, what, strict_ok))
+    return res
+
+
 # ------------------------------------------------------------------ the oracle
 def _work(chunk):
     return [evaluate(ir, ks) for ir, ks in chunk]
@@ -436,14 +567,44 @@ def oracle(rng, tier):
     size = max(1, len(work) // (nproc * 8))
     chunks = [work[i:i + size] for i in range(0, len(work), size)]
     impl()
+    seqs = gen_sequences(rng, 700 if tier == "quick" else 6000, nproc)
+    seq_classes = _classify([(ks, ir) for _, ir, ks, _ in seqs])
+    seq_work = [(po, ir, ks) for po, ir, ks, _ in seqs]
+    ssize = max(1, len(seq_work) // (nproc * 4))
+    seq_chunks = [seq_work[i:i + ssize] for i in range(0, len(seq_work), ssize)]
     if nproc > 1:
         with Pool(nproc) as pool:
             results = [r for ch in pool.map(_work, chunks) for r in ch]
+        # (fresh worker processes: what a sequence meets is only what ran before it in its own chunk)
+        with Pool(nproc) as pool:
+            seq_results = [r for ch in pool.map(_work_seq, seq_chunks) for r in ch]
     else:
         results = [r for ch in map(_work, chunks) for r in ch]
+        seq_results = [r for ch in map(_work_seq, seq_chunks) for r in ch]
     failures, hist, seen, disagree = [], collections.Counter(), set(), []
-    closure_pairs, closure_idx, rel_reqs, rel_idx = [], [], [], []
     evaluations = 0
+    # ---- sequences: the conversion under test must not depend on what the process converted before
+    for (poison, ir, ks, tags), cls, (did, alone, after, ok, what, strict_ok) in zip(seqs, seq_classes, seq_results):
+        if cls == "out-of-domain":
+            hist["sequence:out-of-domain"] += 1
+            continue
+        evaluations += 1
+        hist["sequence:before:%s:%s" % (poison["kind"] + ("/" + poison["format"] if poison["kind"] == "text" else ""), did)] += 1
+        case = {"ir": _jsonable(ir), "chain": ks, "before": poison}
+        if cls is None:
+            seen.add(json.dumps(case, sort_keys=True, default=str))
+            if ok and not strict_ok:
+                ok, what = False, "preserved only up to a documented loss inside the region"
+        if ok and alone != after:
+            ok, what = False, "the same conversion gives another interface right after another conversion in the same process " \
+                              "(%s) than alone: %s instead of %s" % (did, after[:300], alone[:300])
+        elif not ok:
+            what = "right after another conversion in the same process (which %s): %s%s" % (
+                did, what, "" if alone == after else " [run alone before it, the chain ended with " + alone[:200] + "]")
+        hist["sequence:" + ("holds" if ok else "fails") + ":" + (cls or "in-region")] += 1
+        if not ok:
+            failures.append({"case": case, "what": what, "class": cls})
+    closure_pairs, closure_idx, rel_reqs, rel_idx = [], [], [], []
     for n, ((ir, ks, tags), cls, (ok, what, mids, strict_ok)) in enumerate(zip(pts, classes, results)):
         if cls == "out-of-domain":
             hist["out-of-domain"] += 1
@@ -487,8 +648,11 @@ def oracle(rng, tier):
                 "prose shapes x default kinds, and descriptions built inside the region of each chain) x chains over the seven kinds "
                 "(quick: 14 sampled single hops / ordered pairs / length-3 chains per description; thorough: all 7 + 42 + 210 on each "
                 "description); real emit -> ast.unparse -> ast.parse -> real parse per hop; `preserved` after the documented losses; "
-                "inside the region: strict `preserved`, and every intermediate IR classified again (closure); non-trivial = distinct "
-                "(description, chain) inside the region chain_safe",
+                "inside the region: strict `preserved`, and every intermediate IR classified again (closure); sequences: a chain on a "
+                "description inside its region is run alone, then another conversion is run in the same process (a once-damaged "
+                "numpydoc / Google / ReST docstring, or a chain on a description outside the region: most raise part-way), then the "
+                "chain again: the property must hold and the result must be the one obtained alone; non-trivial = distinct "
+                "(description, chain[, what ran before]) inside the region chain_safe",
         "failures": failures,
         "model_impl_property_disagreements": disagree,
         "histogram": dict(hist),
